@@ -179,6 +179,24 @@ fn parse_response(raw: &[u8]) -> std::io::Result<HttpResponse> {
         })
         .collect();
 
+    // The body is "everything until EOF", but a peer that declared a length
+    // and then closed early did not send a complete response: returning the
+    // short body as a success would hand the coordinator a truncated
+    // fragment. A length we cannot read is not one we may guess at either.
+    let headers: Vec<(String, String)> = headers;
+    if let Some((_, v)) = headers.iter().find(|(k, _)| k == "content-length") {
+        let declared: usize = v
+            .parse()
+            .map_err(|_| invalid(&format!("unparseable Content-Length: {v:?}")))?;
+        if body.len() < declared {
+            return Err(invalid(&format!(
+                "response body truncated: {} of {} declared bytes",
+                body.len(),
+                declared
+            )));
+        }
+    }
+
     Ok(HttpResponse {
         status,
         headers,
